@@ -39,6 +39,20 @@ pub fn exec(store: &mut HashMap<String, MarkerTree>, cmd: &str) -> String {
             store.insert(p[1].to_string(), x);
             "ok".into()
         }
+        // `sp n a lo hi` / `cp n a lo hi`: simplify / complexify_python_versions; bounds `u`, `i<ver>`, `e<ver>`
+        "sp" | "cp" => {
+            let bound = |t: &str| -> std::ops::Bound<pep440_rs::Version> {
+                match t.split_at(1) {
+                    ("i", v) => std::ops::Bound::Included(pep440_rs::Version::from_str(v).unwrap()),
+                    ("e", v) => std::ops::Bound::Excluded(pep440_rs::Version::from_str(v).unwrap()),
+                    _ => std::ops::Bound::Unbounded,
+                }
+            };
+            let (lo, hi) = (bound(p[3]), bound(p[4]));
+            let x = if p[0] == "sp" { store[p[2]].clone().simplify_python_versions(lo.as_ref(), hi.as_ref()) } else { store[p[2]].clone().complexify_python_versions(lo.as_ref(), hi.as_ref()) };
+            store.insert(p[1].to_string(), x);
+            "ok".into()
+        }
         "obs" => {
             let m = &store[p[1]];
             let dnf = m.to_dnf();
@@ -392,8 +406,11 @@ pub fn run(out: &mut Out, tier: &str, seed: u64, prop: &str) {
                     ("c".into(), format!("'{salt}' in platform_machine or python_version < '3.{}'", 6 + round % 5)),
                     ("d".into(), format!("os_name != '{salt}a' and implementation_name > '{salt}'")),
                 ];
-                let mut script = script_for(&q, &["and e a b".into(), "or f c d".into(), "not g e".into(), "and h f g".into(), "or i e f".into(), format!("sx j i {}", hex(&salt.to_lowercase())), "and k h j".into()]);
-                for n in ["a", "e", "f", "h", "i", "j", "k"] { script.push(format!("obs {n}")); }
+                let mut script = script_for(&q, &["and e a b".into(), "or f c d".into(), "not g e".into(), "and h f g".into(), "or i e f".into(), format!("sx j i {}", hex(&salt.to_lowercase())), "and k h j".into(),
+                    // requires-python surgery incl. empty, half-open-empty and inverted ranges (every call must return)
+                    format!("sp l a i3.{} e3.{}", 5 + round % 7, 5 + round % 7), format!("sp m k e3.{} i3.{}", 6 + round % 5, 6 + round % 5), "sp n i i3.9 e3.12".into(),
+                    format!("cp o a e3.{} e3.{}", 5 + round % 7, 5 + round % 7), "cp q c i3.12 i3.8".into(), "cp r f i3.8 u".into(), "and s l r".into()]);
+                for n in ["a", "e", "f", "h", "i", "j", "k", "l", "m", "n", "o", "q", "r", "s"] { script.push(format!("obs {n}")); }
                 for (a, b) in [("e", "f"), ("h", "k"), ("i", "j"), ("a", "a")] { script.push(format!("rel {a} {b}")); }
                 let hx = hex(&script.join(";"));
                 for n in [2usize, 8, 16] {
